@@ -24,7 +24,7 @@ func init() {
 	gometrics.NewMeter().Stop()
 
 	Register(&Prop{
-		ID: "C20", Bubble: true, ArmLockProbes: true, Run: runC20, QuickRuns: 1200,
+		ID: "C20", Bubble: true, ArmLockProbes: true, Run: runC20, QuickRuns: 2000,
 		ExpectedProbes: []string{"start_or_stop_while_live", "gauge_polled", "decisions_overlapped"},
 		Rule: "one run = (a) a recording metric registry under a strategy (simple / precise / lookup / predicate) and a limit implementation (AIMD, Vegas, Gradient, Gradient2, Fixed, Settable, windowed) driven by a seeded history: every in-flight sample equals the ledger count at the admission decision, limit / partition gauges equal the enforced values, every OnSample emits exactly one rtt, one in-flight and (iff drop) one dropped sample; or (b) the real go-metrics or datadog registry inside the bubble (fresh go-metrics registry; real statsd client over an in-memory writer): seeded sequences of Register*, AddSample, Start, Stop (repeated, out of order), sleeps of k x pollFrequency so that Stop lands on a tick, under a seeded schedule that includes the poller goroutine; " +
 			"oracle (b): each sample reaches the backend metric of the right kind under prefix+id; gauge suppliers are called only between Start and the return of Stop, at most once per tick and gauge (two Starts must not double the rate) and at least once per two ticks; Start / Stop return; nothing polls after the final Stop; " +
